@@ -56,6 +56,10 @@ def replay_violations(rp, cfg, entropy, mode, history, out, pid_filter=None, ext
         sig = dict(kind=kind, exc=d.get('exc'), at=d.get('at'), wrapper=cfg['wrapper'], levy=cfg['levy'],
                    cache_size=cfg['cache_size'], dt=cfg['dt'], tol=cfg['tol'], halfway=cfg['halfway'],
                    ndim=len(cfg['size']))
+        q = d.get('q')
+        qlen = (q[2] - q[1]) if q else None
+        sig['tiny_scale'] = bool((qlen is not None and 0 < qlen < 1e-100) or
+                                 (rp.min_len is not None and rp.min_len < 1e-100))
         if extra:
             sig.update(extra)
         out.violation(sig, f"{kind}: {d}", dict(cfg=cfg, entropy=entropy, mode=mode, history=list(history),
@@ -133,8 +137,8 @@ def schedule(N, T=1.0, t0=0.0):
     return ts, h
 
 
-def base_history(N, via_back='r'):
-    ts, h = schedule(N)
+def base_history(N, via_back='r', t0=0.0, t1=1.0):
+    ts, h = schedule(N, T=t1, t0=t0)
     fwd = [['qd', a, b] for a, b in zip(ts[:-1], ts[1:])]
     bwd = [['qr' if via_back == 'r' else 'qd', a, b] for a, b in reversed(list(zip(ts[:-1], ts[1:])))]
     return ts, h, fwd, bwd
@@ -169,7 +173,7 @@ def deviation_ops(name, i, ts, h, tol):
         return [['qd', a, b]] if b > a else [['qd', a, a]]
     if name == 'ulp_short':
         t1 = min(t + h, T)
-        return [['qd', t, math.nextafter(t1, 0.0)], ['qd', math.nextafter(t1, 0.0), t1]]
+        return [['qd', t, math.nextafter(t1, -math.inf)], ['qd', math.nextafter(t1, -math.inf), t1]]
     if name == 'subtol':
         eps = tol / 3 if tol else 1e-13
         return [['qd', t, min(t + eps, T)]]
@@ -185,9 +189,9 @@ def deviation_positions(N):
     return out
 
 
-def build_deviated(N, devs, tol=0., via_back='r'):
+def build_deviated(N, devs, tol=0., via_back='r', t0=0.0, t1=1.0):
     """devs: list of (position, name).  Positions index the flat base list (0..2N); 2N = after everything."""
-    ts, h, fwd, bwd = base_history(N, via_back)
+    ts, h, fwd, bwd = base_history(N, via_back, t0, t1)
     flat = fwd + bwd
     ins = {}
     for pos, name in devs:
@@ -212,7 +216,7 @@ def deviation_unit(unit):
     kinds = unit.get('kinds')
     out = Out()
     for devs in unit['devsets']:
-        hist = build_deviated(unit['N'], devs, cfg['tol'], unit.get('via_back', 'r'))
+        hist = build_deviated(unit['N'], devs, cfg['tol'], unit.get('via_back', 'r'), cfg['t0'], cfg['t1'])
         label = dict(N=unit['N'], devs=[list(d) for d in devs])
         with bmm.Replay(cfg, entropy, mode=mode, K=unit.get('K'), given=unit.get('given'),
                         budget=unit.get('budget', 300000)) as rp:
@@ -281,3 +285,21 @@ def bfs_units(cfg, entropy, alphabet, depth, split=False, **kw):
 def dev_units(cfg, entropy, N, D, nchunks=8, menu=DEV_MENU, **kw):
     sets = all_devsets(N, D, menu)
     return [dict(kind='dev', cfg=cfg, entropy=entropy, N=N, devsets=c, **kw) for c in chunks(sets, nchunks)]
+
+
+def selfcheck_determinism(entropy=1):
+    """Determinism protocol (DESIGN section 1): one recorded exploration is run twice in this process and must give
+    identical observations (state keys, counters, answers digests) before any result of the run is trusted."""
+    cfg = bmm.cfg_make(size=(2, 2), levy='foster', cache_size=2)
+    unit = dict(kind='bfs', cfg=cfg, entropy=entropy, alphabet=bmm.grid_ops(bmm.G4[:4]), depth=2, prefix=[],
+                keymode='answers')
+    a = bfs_unit(dict(unit))
+    b = bfs_unit(dict(unit))
+    if sorted(a['nontrivial']) != sorted(b['nontrivial']) or a['counters'] != b['counters']:
+        raise HarnessError("determinism self-check failed: two replays of the same exploration differ")
+    u2 = dict(kind='dev', cfg=cfg, entropy=entropy, N=8, devsets=all_devsets(8, 1)[:12])
+    a = deviation_unit(dict(u2))
+    b = deviation_unit(dict(u2))
+    if sorted(a['nontrivial']) != sorted(b['nontrivial']) or a['counters'] != b['counters']:
+        raise HarnessError("determinism self-check failed (solver-shaped histories)")
+    return len(a['nontrivial'])
